@@ -196,5 +196,5 @@ func c11PollInLoops(c *Ctx, p *core.Prog) {
 		}
 	}
 	r.Extra("must_poll_functions", nm)
-	r.Floor("poll-in-loop", n, 20, "parser loops that parse expressions")
+	r.Floor("poll-in-loop", n, 12, "parser loops that parse expressions")
 }
